@@ -206,9 +206,9 @@ class KernelEval:
         s.cache[ck] = (r, st)
         return r, st
 
-    def outputs_at(s, fam, mode, backend, k, chans=("x1", "x2"), p1=None):
+    def outputs_at(s, fam, mode, backend, k, chans=("x1", "x2"), p1=None, chunk=None):
         """5-tuple of X for a concrete segment-count regime (k = 1 or 2) and, for the poly family, a concrete basis width p1, or an Opaque."""
-        val, _ = s.evaluate(fam, mode, backend, chans)
+        val, _ = s.evaluate(fam, mode, backend, chans, chunk=chunk)
         if p1 is not None: val = subst_val(val, {"Q.shape1": X.const(p1)})
         leaf, und = leaf_for_K(val, k)
         if und: return Opaque(f"branch condition not on the segment count: {und[0]}")
@@ -397,29 +397,32 @@ def check_pair_identities(ctx, KE, rule="R5-kernel-identities", backends=None):
     keeps Re XY, flips Im XY; one segment gives |XY|^2 = XX*YY."""
     K = "starts.shape0"
     for backend in (backends or BACKENDS):
-        todo = [(f_, None) for f_ in FAMILIES]
+        todo = [(f_, None, None) for f_ in FAMILIES]
+        if backend == "numpy":
+            todo += [(f_, None, 2) for f_ in FAMILIES if has_chunk_param(ctx.repo.get(kernel_key(f_, "csd", backend)))]      # several chunks (K > _chunk)
         while todo:
-            fam, p1 = todo.pop(0)
+            fam, p1, chunk = todo.pop(0)
             key = kernel_key(fam, "csd", backend); akey = kernel_key(fam, "auto", backend)
             kw = ctx.repo.where(key, ctx.repo.get(key))
             ctx.analysed(key, akey)
-            pair = KE.outputs_at(fam, "csd", backend, 2, p1=p1)
-            swp = KE.outputs_at(fam, "csd", backend, 2, ("x2", "x1"), p1=p1)
-            a1 = KE.outputs_at(fam, "auto", backend, 2, ("x1", "x2"), p1=p1)
-            a2 = KE.outputs_at(fam, "auto", backend, 2, ("x2", "x1"), p1=p1)
+            kk = 3 if chunk else 2
+            pair = KE.outputs_at(fam, "csd", backend, kk, p1=p1, chunk=chunk)
+            swp = KE.outputs_at(fam, "csd", backend, kk, ("x2", "x1"), p1=p1, chunk=chunk)
+            a1 = KE.outputs_at(fam, "auto", backend, kk, ("x1", "x2"), p1=p1, chunk=chunk)
+            a2 = KE.outputs_at(fam, "auto", backend, kk, ("x2", "x1"), p1=p1, chunk=chunk)
             bad = next((z for z in (pair, swp, a1, a2) if is_opaque(z)), None)
             if bad is not None:
                 ctx.ob(rule, key, VIOLATED if isinstance(bad, Mismatch) else UNKNOWN, bad.why, kw); continue
             buf = []
 
-            def kl(name, lhs, rhs, detail, buf=buf, p1=p1, key=key, kw=kw):
-                st, why = compare(lhs, rhs, prepare=prepare_env, seed=ctx.seed)
-                buf.append((f"{rule}[{name}]", key + (f"[{p1}-column basis]" if p1 else ""), st, detail + (f" ({why})" if why else ""), kw, lhs if st != HOLDS else None, rhs if st != HOLDS else None))
+            def kl(name, lhs, rhs, detail, buf=buf, p1=p1, key=key, kw=kw, chunk=chunk):
+                st, why = compare(lhs, rhs, prepare=prepare_env_chunks if chunk else prepare_env, seed=ctx.seed)
+                buf.append((f"{rule}[{name}]", key + (f"[{p1}-column basis]" if p1 else "") + ("[chunks of 2]" if chunk else ""), st, detail + (f" ({why})" if why else ""), kw, lhs if st != HOLDS else None, rhs if st != HOLDS else None))
 
-            def flush(buf=buf, fam=fam, p1=p1):
+            def flush(buf=buf, fam=fam, p1=p1, chunk=chunk):
                 # a symbolic basis width that leaves a comparison inconclusive is instantiated (2 and 3 columns) instead
                 if p1 is None and fam == "poly" and any(b[2] == UNKNOWN and "agree numerically" in b[3] for b in buf):
-                    todo.extend([(fam, 2), (fam, 3)]); return
+                    todo.extend([(fam, 2, chunk), (fam, 3, chunk)]); return
                 for r_, c_, st_, d_, w_, l_, rr_ in buf: ctx.ob(r_, c_, st_, d_, w_, lhs=l_, rhs=rr_)
             kl("alone=pair:x", pair[0], a1[0], "mean |X|^2 of channel 1 in a pair vs analysed alone")
             kl("alone=pair:y", pair[1], a2[0], "mean |Y|^2 of channel 2 in a pair vs analysed alone")
@@ -428,6 +431,7 @@ def check_pair_identities(ctx, KE, rule="R5-kernel-identities", backends=None):
             kl("swap:re", swp[2], pair[2], "Re<XY*> is symmetric under channel swap")
             kl("swap:im", swp[3], -pair[3], "Im<XY*> changes sign under channel swap")
             kl("swap:M2", swp[4], pair[4], "scatter is symmetric under channel swap")
+            if chunk: flush(); continue
             one = KE.outputs_at(fam, "csd", backend, 1, p1=p1)
             if is_opaque(one):
                 flush(); ctx.ob(f"{rule}[coh=1]", key, UNKNOWN, one.why, kw); continue
